@@ -71,89 +71,88 @@ func zzCount(l []string, s string) int {
 	return n
 }
 
-// VerifC17_Queue: from a committed set of acme storages, one incremental sync removes the dirty
-// ones and re-creates those that still exist with their new domain sets; AcmeUpdate then enqueues
-// exactly the entries that are new or changed and removes exactly those gone or changed.
+// VerifC17_Queue: from a committed set of acme storages, CYCLES incremental syncs follow; each
+// removes the dirty storages and re-creates those that still exist with their new domain sets;
+// AcmeUpdate then enqueues exactly the entries that are new or changed and removes exactly those
+// gone or changed; the update cycle ends with the configuration's Commit, as HAProxyUpdate does.
 func VerifC17_Queue() {
 	q := &zzAcmeQueue{}
-	le := &zzLeader{leader: nd.Bool("leader")}
-	sg := &zzSigner{account: nd.Bool("account")}
+	le := &zzLeader{leader: nd.Param("LEADER", 0) == 1 || nd.Bool("leader")}
+	sg := &zzSigner{account: nd.Param("LEADER", 0) == 1 || nd.Bool("account")}
 	inst := CreateInstance(zzAcmeLogger{}, InstanceOptions{AcmeQueue: q, LeaderElector: le, AcmeSigner: sg}).(*instance)
 	st := inst.Config().AcmeData().Storages()
 	n := nd.Param("STORAGES", 3)
+	cycles := nd.Param("CYCLES", 1)
 	type dom struct{ on, d1, d2 bool }
+	domains := func(d dom) []string {
+		var ds []string
+		if d.d1 {
+			ds = append(ds, zzAcmeDomains[0])
+		}
+		if d.d2 {
+			ds = append(ds, zzAcmeDomains[1])
+		}
+		return ds
+	}
 	s0 := make([]dom, n)
 	for k := 0; k < n; k++ {
 		s0[k] = dom{nd.Bool("s0.on"), nd.Bool("s0.d1"), nd.Bool("s0.d2")}
 		if s0[k].on {
-			var ds []string
-			if s0[k].d1 {
-				ds = append(ds, zzAcmeDomains[0])
-			}
-			if s0[k].d2 {
-				ds = append(ds, zzAcmeDomains[1])
-			}
-			st.Acquire(zzAcmeNames[k]).AddDomains(ds)
+			st.Acquire(zzAcmeNames[k]).AddDomains(domains(s0[k]))
 		}
 	}
-	st.Commit()
+	inst.Config().Commit()
 
-	s1 := make([]dom, n)
-	var dirty []string
-	isDirty := make([]bool, n)
-	for k := 0; k < n; k++ {
-		s1[k] = dom{nd.Bool("s1.on"), nd.Bool("s1.d1"), nd.Bool("s1.d2")}
-		changed := s0[k].on != s1[k].on || (s1[k].on && (s0[k].d1 != s1[k].d1 || s0[k].d2 != s1[k].d2))
-		isDirty[k] = changed || nd.Bool("dirty")
-		if isDirty[k] {
-			dirty = append(dirty, zzAcmeNames[k])
-		}
-	}
-	st.RemoveAll(dirty)
-	for k := 0; k < n; k++ {
-		if isDirty[k] && s1[k].on {
-			var ds []string
-			if s1[k].d1 {
-				ds = append(ds, zzAcmeDomains[0])
+	for c := 0; c < cycles; c++ {
+		q.added, q.removed = nil, nil
+		s1 := make([]dom, n)
+		var dirty []string
+		isDirty := make([]bool, n)
+		for k := 0; k < n; k++ {
+			s1[k] = dom{nd.Bool("s1.on"), nd.Bool("s1.d1"), nd.Bool("s1.d2")}
+			changed := s0[k].on != s1[k].on || (s1[k].on && (s0[k].d1 != s1[k].d1 || s0[k].d2 != s1[k].d2))
+			isDirty[k] = changed || nd.Bool("dirty")
+			if isDirty[k] {
+				dirty = append(dirty, zzAcmeNames[k])
+			} else {
+				s1[k] = s0[k]
 			}
-			if s1[k].d2 {
-				ds = append(ds, zzAcmeDomains[1])
-			}
-			st.Acquire(zzAcmeNames[k]).AddDomains(ds)
 		}
-	}
-	inst.AcmeUpdate()
+		st.RemoveAll(dirty)
+		for k := 0; k < n; k++ {
+			if isDirty[k] && s1[k].on {
+				st.Acquire(zzAcmeNames[k]).AddDomains(domains(s1[k]))
+			}
+		}
+		inst.AcmeUpdate()
 
-	if !le.leader || !sg.account {
-		nd.Assert(len(q.added) == 0 && len(q.removed) == 0, "non-leader-or-no-account-enqueues-nothing")
-		nd.Reach("idle")
-		return
+		if !le.leader || !sg.account {
+			nd.Assert(len(q.added) == 0 && len(q.removed) == 0, "non-leader-or-no-account-enqueues-nothing")
+			nd.Reach("idle")
+			return
+		}
+		total := 0
+		for k := 0; k < n; k++ {
+			old := zzRender(zzAcmeNames[k], s0[k].d1, s0[k].d2)
+			cur := zzRender(zzAcmeNames[k], s1[k].d1, s1[k].d2)
+			wantAdd, wantDel := 0, 0
+			if s1[k].on && (!s0[k].on || old != cur) {
+				wantAdd = 1
+				total++
+			}
+			if s0[k].on && (!s1[k].on || old != cur) {
+				wantDel = 1
+			}
+			if s1[k].on {
+				nd.Assert(zzCount(q.added, cur) == wantAdd, "enqueued-iff-new-or-changed")
+			}
+			if s0[k].on {
+				nd.Assert(zzCount(q.removed, old) == wantDel, "removed-iff-gone-or-changed")
+			}
+		}
+		nd.Assert(len(q.added) == total, "nothing-else-enqueued")
+		inst.Config().Commit()
+		copy(s0, s1)
 	}
-	for k := 0; k < n; k++ {
-		old := zzRender(zzAcmeNames[k], s0[k].d1, s0[k].d2)
-		cur := zzRender(zzAcmeNames[k], s1[k].d1, s1[k].d2)
-		wantAdd, wantDel := 0, 0
-		if s1[k].on && (!s0[k].on || old != cur) {
-			wantAdd = 1
-		}
-		if s0[k].on && (!s1[k].on || old != cur) {
-			wantDel = 1
-		}
-		if s1[k].on {
-			nd.Assert(zzCount(q.added, cur) == wantAdd, "enqueued-iff-new-or-changed")
-		}
-		if s0[k].on {
-			nd.Assert(zzCount(q.removed, old) == wantDel, "removed-iff-gone-or-changed")
-		}
-	}
-	total := 0
-	for k := 0; k < n; k++ {
-		old := zzRender(zzAcmeNames[k], s0[k].d1, s0[k].d2)
-		cur := zzRender(zzAcmeNames[k], s1[k].d1, s1[k].d2)
-		if s1[k].on && (!s0[k].on || old != cur) {
-			total++
-		}
-	}
-	nd.Assert(len(q.added) == total, "nothing-else-enqueued")
 	nd.Reach("end")
 }
